@@ -3,6 +3,7 @@
 # Runs the property's quick check against each seeded change in a scratch worktree (never touches /repo's tree),
 # and records the outcome in seeded/<name>/meta.json under "checks_run".
 set -u
+mkdir -p /tmp/seed
 export GOFLAGS=-mod=mod GOPROXY=off GOSUMDB=off GOTOOLCHAIN=local
 cd /verif
 for arg in "$@"; do
